@@ -116,7 +116,7 @@ def monitor(spec, res, acc):
                     f"table ({zg}) but adjusted FC {adj[i]!r} != FC {thfc[i]!r}", dict(t=t, comp=i))
         if np.any(adj > thfc + 1e-12):
             cov["d_thfc_adjusted"] += 1
-        below = centre >= zg
+        below = centre > zg + 1e-9      # strictly below: a centre at the table (a tie decided by rounding) is not "below"
         if below.any():
             cov["d_below_table"] += 1
             th = s["th1"]
